@@ -49,9 +49,60 @@ func parseGuarded(src string) (result, bool) {
 	}
 }
 
+// in-flight inputs, for the runaway watchdog
+type flight struct {
+	kind, name, src string
+	since           time.Time
+}
+
+var (
+	flightMu sync.Mutex
+	flights  = map[int64]flight{}
+	flightID atomic.Int64
+	finish   func(note string) // writes the evidence and exits
+)
+
+// watchdog: a parser that loops while allocating exhausts the machine's memory long before the 30 s hang guard
+// (there is no memory limit in the sandbox). When the heap passes the limit, the inputs that have been in the parser
+// for more than two seconds are reported as hangs and the run ends at once (not exhaustive, but with a verdict).
+func watchdog(limit uint64) {
+	var ms runtime.MemStats
+	for {
+		time.Sleep(150 * time.Millisecond)
+		runtime.ReadMemStats(&ms)
+		if ms.HeapAlloc < limit {
+			continue
+		}
+		flightMu.Lock()
+		n := 0
+		for _, f := range flights {
+			if time.Since(f.since) > 2*time.Second {
+				n++
+				src := f.src
+				if len(src) > 2000 {
+					src = src[:2000]
+				}
+				run.Violation("hang", fmt.Sprintf("%s of %s: ParseString has not returned after %.0f s and the process holds %d MiB (runaway allocation)", f.kind, f.name, time.Since(f.since).Seconds(), ms.HeapAlloc>>20), map[string]any{"kind": f.kind, "from": f.name, "input": src})
+			}
+		}
+		flightMu.Unlock()
+		if n == 0 {
+			continue // a burst of large inputs, nothing stuck
+		}
+		finish(fmt.Sprintf("stopped by the memory watchdog at %d MiB with %d input(s) stuck in the parser", ms.HeapAlloc>>20, n))
+	}
+}
+
 func checkInput(kind, name, src string, faithful bool) {
 	parses.Add(1)
+	id := flightID.Add(1)
+	flightMu.Lock()
+	flights[id] = flight{kind, name, src, time.Now()}
+	flightMu.Unlock()
 	r, returned := parseGuarded(src)
+	flightMu.Lock()
+	delete(flights, id)
+	flightMu.Unlock()
 	replay := map[string]any{"kind": kind, "from": name, "input": src}
 	if !returned {
 		// confirm: a slow machine is not a hang
@@ -157,6 +208,14 @@ var tokRe = regexp.MustCompile(`[A-Za-z_][A-Za-z0-9_]*|[0-9]+|\s+|.`)
 func main() {
 	run = vlib.Start("C06", "exploration")
 	corpus := tgen.Corpus()
+	alphabet := []string{"templ T() {", "}", "{", "{{", "}}", "<div>", "</div>", "<br/>", "<script>", "</script>", "<style>", "<!--", "-->", "if x {", "} else {", "for _, x := range xs {", "switch x {", "case 1:", "@c()", "\"", "'", "`", "é", "\r\n"}
+	var prefixes, edits, seqs, seqLen int
+	var once sync.Once
+	finish = func(note string) {
+		once.Do(func() { finishRun(note, corpus, prefixes, edits, seqs, len(alphabet), seqLen) })
+		select {} // another goroutine is writing the evidence and exits the process
+	}
+	go watchdog(uint64(run.Pick(6, 12)) << 30)
 	type job struct{ kind, name, src string }
 	jobs := make(chan job, 4096)
 	var wg sync.WaitGroup
@@ -169,9 +228,7 @@ func main() {
 			}
 		}()
 	}
-	alphabet := []string{"templ T() {", "}", "{", "{{", "}}", "<div>", "</div>", "<br/>", "<script>", "</script>", "<style>", "<!--", "-->", "if x {", "} else {", "for _, x := range xs {", "switch x {", "case 1:", "@c()", "\"", "'", "`", "é", "\r\n"}
 	// (i) whole files and every byte prefix
-	prefixes := 0
 	maxPrefixFile := run.Pick(1500, 1<<30)
 	for _, d := range corpus {
 		jobs <- job{"whole file", d.Name, d.Src}
@@ -190,7 +247,6 @@ func main() {
 		}
 	}
 	// (ii) every single-token deletion, duplication and insertion at every token boundary
-	edits := 0
 	maxEditFile := run.Pick(400, 2500)
 	for _, d := range corpus {
 		if len(d.Src) > maxEditFile {
@@ -209,8 +265,7 @@ func main() {
 		}
 	}
 	// (iii) every token string ≤ N after a template header, and at file level
-	seqLen := run.Pick(3, 4)
-	seqs := 0
+	seqLen = run.Pick(3, 4)
 	vlib.Seqs(alphabet, seqLen, func(s string, _ []int) bool {
 		jobs <- job{"token string in template body", "alphabet", "package p\n\ntempl T() {\n" + s}
 		jobs <- job{"token string in closed template body", "alphabet", "package p\n\ntempl T() {\n" + s + "\n}\n"}
@@ -234,11 +289,18 @@ func main() {
 	}
 	close(jobs)
 	wg.Wait()
+	finish("")
+}
+
+func finishRun(note string, corpus []tgen.Doc, prefixes, edits, seqs, nAlphabet, seqLen int) {
+	if note != "" {
+		run.Capped(note)
+	}
 	run.Cov["corpus_texts"] = len(corpus)
 	run.Cov["prefix_inputs"] = prefixes
 	run.Cov["single_token_edit_inputs"] = edits
 	run.Cov["token_string_inputs"] = seqs
-	run.Cov["token_alphabet"] = len(alphabet)
+	run.Cov["token_alphabet"] = nAlphabet
 	run.Cov["token_string_max_len"] = seqLen
 	run.Cov["parses"] = parses.Load()
 	run.Cov["accepted_by_parser"] = accepted.Load()
